@@ -392,6 +392,19 @@ pub fn judge(t: &Target, p: &Ov, src: Source, e: &Expect, run: &Run) -> Option<F
                     if !(msg.to_lowercase().contains("zero") || names_number(msg, "0")) {
                         return f("domain-msg-zero", "domain error for 0 into a NonZero target does not mention a zero", msg.clone());
                     }
+                    // a bound that the message names must be a bound the target has (round 8): every number between
+                    // backticks is 0, the target's MIN or the target's MAX
+                    let bounds: Vec<String> = match t.class {
+                        Class::Unsigned { max, .. } => vec!["0".into(), max.to_string()],
+                        Class::Signed { min, max, .. } => vec!["0".into(), min.to_string(), max.to_string()],
+                        _ => vec![],
+                    };
+                    for q in msg.split('`').skip(1).step_by(2) {
+                        let digits = q.strip_prefix('-').unwrap_or(q);
+                        if !bounds.is_empty() && !digits.is_empty() && digits.bytes().all(|b| b.is_ascii_digit()) && !bounds.iter().any(|b| b == q) {
+                            return f("domain-msg-bound", "domain error for 0 into a NonZero target names a bound the target does not have", msg.clone());
+                        }
+                    }
                 }
                 Why::CharCount { s, n } => {
                     if !msg.contains(s.as_str()) || !names_number(msg, &n.to_string()) {
